@@ -350,6 +350,18 @@ func verifSpecCL(lowered string) primitive.ConsistencyLevel {
 //@   trusted
 //@   modifies nothing
 
+// nameBasedUUID: "host ids are deterministic version-3 UUIDs of the address": the MD5 digest of the
+// name with the version nibble set to 3 and the variant bits to 10 - a function of the name alone.
+//@ func proxy.nameBasedUUID [C10]
+//@   ensures digest: forall(k, 0, 16, k != 6 && k != 8 ==> result[k] == ufInt("md5.byte", name, k))
+//@   ensures version-3: result[6] == 48 + ufInt("md5.byte", name, 6) % 16
+//@   ensures variant: result[8] == 128 + ufInt("md5.byte", name, 8) % 64
+//@   modifies nothing
+
+//@ loop proxy.nameBasedUUID #1
+//@   invariant 0 <= i && i <= 16 && len(hash) == 16 && forall(k, 0, i, uuid[k] == ufInt("md5.byte", name, k))
+//@   invariant forall(k, 0, 16, hash[k] == ufInt("md5.byte", name, k) && 0 <= ufInt("md5.byte", name, k) && ufInt("md5.byte", name, k) <= 255)
+
 //@ func proxy.client.localIP [C10]
 //@   requires c != nil && c.proxy != nil && c.proxy.localNode != nil && c.conn != nil
 //@   modifies nothing
